@@ -61,14 +61,33 @@ def strategy(tier):
     try:
         from vlib import udpcl_machine as um
         from vlib import stack_world as sw
-        return st.one_of(tcp, tcp, um.cases().map(lambda c: dict(c, kind='udpcl')), sw.cases())
+        return st.one_of(tcp, tcp, um.cases().map(lambda c: dict(c, kind='udpcl')), sw.cases(), peer_value_cases())
     except ImportError:
         return tcp
+
+
+BIG = [0, 1, 2 ** 31 - 1, 2 ** 31, 2 ** 32, 2 ** 63, 2 ** 64 - 1]
+
+
+def peer_value_cases():
+    ''' Values chosen by the peer that reach signals and return values: session parameters, transfer IDs, the announced
+    total length of a transfer. '''
+    xfer = st.tuples(st.sampled_from(BIG), st.sampled_from([0, 5]), st.sampled_from([None, 'true'] + BIG[3:]), st.integers(1, 2)).map(list)
+    return st.fixed_dictionaries({
+        'kind': st.just('peer-values'), 'active': st.booleans(),
+        'keepalive': st.sampled_from([0, 1, 65535]), 'segment_mru': st.sampled_from([1000, 2 ** 32, 2 ** 64 - 1]),
+        'transfer_mru': st.sampled_from([1000, 2 ** 31, 2 ** 63, 2 ** 64 - 1]),
+        'nodeid': st.sampled_from(['dtn://peer/', '', 'dtn://\u4e2d/', 'ipn:4294967296.1']),
+        'xfers': st.lists(xfer, min_size=1, max_size=4),
+    })
 
 
 def enumerate_cases(tier):
     for case in refusal_cases():
         yield case
+    for tid, total in itertools.product(BIG, [None, 'true'] + BIG[3:]):
+        yield {'kind': 'peer-values', 'active': False, 'keepalive': 0, 'segment_mru': 2 ** 64 - 1, 'transfer_mru': 2 ** 64 - 1,
+               'nodeid': 'dtn://peer/', 'xfers': [[tid, 5, total, 1], [7, 5, total, 2]]}
 
 
 def pinned_cases():
@@ -316,6 +335,70 @@ def execute_refusal(case, out):
     out.nontrivial = True
 
 
+def execute_peer_values(case, out):
+    ''' A scripted peer chooses every value it may choose at an extreme of its wire range; everything the endpoint
+    then signals and returns must marshal, and the receive queue must show the transfers. '''
+    from vlib import tcpcl_world as tw, ref9174 as r, strat9174 as s9
+    import dbus
+    active = bool(case['active'])
+    cfg = tw.make_config('dtn://real/')
+    world = tw.World(cfg, scripted=True, real_is_passive=not active)
+    end = world.real
+    world.settle()
+    world.peer_send(r.encode({'t': 'CH', 'magic': r.MAGIC.hex(), 'version': 4, 'flags': 0}))
+    world.settle()
+    world.peer_send(r.encode({'t': 'SESS_INIT', 'keepalive': case['keepalive'], 'segment_mru': case['segment_mru'],
+                              'transfer_mru': case['transfer_mru'], 'nodeid': case['nodeid'], 'ext': []}))
+    world.settle()
+    end.call('get_session_parameters')
+    sent = {}
+    for tid, dlen, total, nseg in case['xfers']:
+        if tid in sent:
+            continue     # (transfer IDs are unique within a session)
+        data = b''
+        for idx in range(nseg):
+            chunk = s9.content(dlen, tid % 1000 + idx)
+            flags = (2 if idx == 0 else 0) | (1 if idx == nseg - 1 else 0)
+            msg = {'t': 'XFER_SEGMENT', 'flags': flags, 'id': tid, 'data': chunk.hex()}
+            if idx == 0:
+                msg['ext'] = [] if total is None else [r.transfer_length_ext(dlen * nseg if total == 'true' else total)]
+            data += chunk
+            world.peer_send(r.encode(msg))
+            world.settle()
+        sent[tid] = data
+        out.label('announced-total:%s' % ('none' if total is None else ('true' if total == 'true' else 'other')))
+        end.call('recv_bundle_get_queue')
+        end.call('is_sess_idle')
+    for esc in world.escapes():
+        out.fail('escape:%s@%s' % (esc.exc_type, esc.frame), 'exception escaped an event-loop callback: %s: %s (peer values %s)'
+                 % (esc.exc_type, esc.exc_msg[:120], {k: v for k, v in case.items() if k != 'kind'}))
+    for ev in dbus.RECORDER.events:
+        if ev.get('error') and ev['kind'] in ('signal', 'return'):
+            out.fail('does-not-marshal:%s' % ev['member'], '%s %s%r does not fit %r: %s' % (ev['kind'], ev['member'], ev.get('args'), ev.get('signature'), ev['error']))
+    out.nontrivial = any(t >= 2 ** 31 for t, _d, _t, _n in case['xfers']) or any(isinstance(t, int) and t >= 2 ** 31 for _i, _d, t, _n in case['xfers'])
+    if end.sock.closed or world.escapes():
+        out.label('closed-or-escaped')
+        return
+    finished = [str(ev['args'][0]) for ev in end.signals('recv_bundle_finished')]
+    queue = end.call('recv_bundle_get_queue')
+    if not hasattr(queue, 'exc'):
+        if sorted(str(x) for x in queue) != sorted(finished):
+            out.fail('recv-queue-inconsistent', 'recv_bundle_get_queue() lists %s, finished and unpopped are %s' % ([str(x) for x in queue], finished))
+    if sorted(finished) != sorted(str(t) for t in sent):
+        out.fail('finished-transfer-not-announced', 'the peer completed transfers %s, recv_bundle_finished announced %s' % (sorted(sent), finished))
+    for tid, data in sent.items():
+        if str(tid) not in finished:
+            continue
+        res = end.call('recv_bundle_pop_data', str(tid))
+        if hasattr(res, 'exc'):
+            out.fail('pop-error', 'popping the announced transfer %s failed: %s' % (tid, res.exc))
+        elif bytes(res) != data:
+            out.fail('pop-data-differs', 'transfer %s pops as %d octets, the peer sent %d' % (tid, len(bytes(res)), len(data)))
+    idle = end.call('is_sess_idle')
+    if not hasattr(idle, 'exc') and not idle:
+        out.fail('never-idle-after-drain', 'every transfer of the peer completed and was popped but is_sess_idle() is False')
+
+
 def execute_stack(case, out):
     ''' The BP-side adaptor (bp/cla.py) as the consumer of the transfer signals. '''
     from vlib import stack_world as sw
@@ -371,6 +454,9 @@ def execute(case):
     out = Outcome()
     if case.get('kind') == 'stack':
         execute_stack(case, out)
+        return out
+    if case.get('kind') == 'peer-values':
+        execute_peer_values(case, out)
         return out
     if case.get('kind') == 'refusal':
         execute_refusal(case, out)
